@@ -4,7 +4,7 @@ Pass 1 - exhaustive schedules.  T = 2 threads (thorough also 3), each running on
 COPY (two chunks; the threads' sources hold DIFFERENT bytes of EQUAL length, so that any shared scratch memory collides),
 WRITE, READ, VALIDATE, FEED (download callbacks); all pairs of scenarios.  Scheduling points are the wrapped system
 calls plus thread start/exit (context set-up happens before the scheduled region).  ALL schedules with <= 2 preemptions
-(thorough 3) are executed under the cooperative scheduler, each in a fresh process; no state-hash pruning because the
+(thorough: 4 for two threads, 2 for three) are executed under the cooperative scheduler, each in a fresh process; no state-hash pruning because the
 memory of interest is hidden from the harness.  Oracle: each thread's return values, flags, output file and read
 results equal those of the same body run alone.
 Pass 2 - races the scheduler cannot see: the same bodies free-running under the ThreadSanitizer build (scheduler off,
@@ -64,7 +64,7 @@ def work_free(arg):
 
 def run(ctx):
     thorough = ctx.tier == "thorough"
-    bound = 3 if thorough else 2
+    bound = 4 if thorough else 2
     combos = list(itertools.combinations_with_replacement(SCENS, 2))
     jobs = [(c, bound, ctx.seed, 0) for c in combos]
     if thorough:
